@@ -2,9 +2,10 @@ package handshake
 
 //symgo:pkg github.com/pion/dtls/v3/pkg/protocol/handshake
 //symgo:param NMSGBODY quick=10 thorough=16
-//symgo:param NKX quick=8 thorough=10
+//symgo:param NKX quick=10 thorough=11
 //symgo:param NCERT quick=10 thorough=14
 //symgo:param NCREQ quick=6 thorough=8
+//symgo:param NCREQ13 quick=9 thorough=10
 //symgo:param NCA quick=7 thorough=10
 //symgo:param NHELLO quick=9 thorough=16
 //symgo:param NTICKET quick=6 thorough=10
@@ -226,7 +227,7 @@ func zzDecHsCertificateRequest12CANoPanic() {
 //
 //symgo:entry covers=creq13_ok,creq13_rejected
 func zzDecHsCertificateRequest13NoPanic() {
-	n := zzsymChoice("len", zzsymParam("NCREQ")+3)
+	n := zzsymChoice("len", zzsymParam("NCREQ13")+3)
 	data := zzsymBytes("d", n)
 	m := MessageCertificateRequest13{}
 	if err := m.Unmarshal(data); err != nil {
